@@ -1,5 +1,5 @@
 """C03 — layer-1 check (see DESIGN §8)."""
-import hsm_corr
+import hsm_corr, factory_corr
 
 
 def explore(run, lean):
@@ -7,14 +7,19 @@ def explore(run, lean):
     hsm_corr.explore(run, "C03", 1500 if quick else 20000, hosts=("plain", "instr", "queued"),
                      malformed_rate=0.0, exhaustive_n=(0 if quick else 0))
     hsm_corr.explore_orthogonal(run, "C03", 200 if run.tier == "quick" else 4000)
+    # start paths of charts assembled from template state functions (nesting declared through register_parent, sometimes twice)
+    run.factory_key = "C03"
+    factory_corr.explore(run, 60 if quick else 1500)
     run.extra["rule"] = ("corpus witnesses first, then random charts (1-14 states, 40% deep chains, multi-level initial "
                          "transitions, per-state HANDLED/fall-through flags) with scripts of start_at + 1-6 ops on plain / "
                          "instrumented / queued hosts; thorough tier adds all trees with <=5 states x all (cur,S,T) x all single "
                          "init assignments; non-trivial = the script reaches the property's mechanism (see histogram); "
                          "distinct by canonical JSON")
-    ROUND6_RULE = '; handlers in the register_parent style that ask `chart.parent_callback()` without argument (queued hosts)'
+    ROUND6_RULE = '; handlers in the register_parent style that ask `chart.parent_callback()` without argument (queued hosts); template charts (register_parent nesting, parents declared twice) against the hand-written build'
     run.extra["rule"] += ROUND6_RULE
 
 
 def replay(case):
+    if "regs" in case.get("case", case):
+        return factory_corr.replay(case)
     return hsm_corr.replay(case)
